@@ -22,7 +22,7 @@ ASSUMPTIONS = [
     "unprefixed type selectors (V6): after a change of the default namespace a restart may resolve them to the default in force, to the default that was in force when they were written (meaning kept), or to 'any namespace'; resolving to the empty namespace or to another URI is a violation",
     "outcomes the statement does not fix (re-binding a prefix to a URI that already has one) are observed: rejected => unchanged, accepted => invariants hold",
 ]
-PROBES = ["rebind_prefix", "delete_used_namespace_rejected", "undeclared_prefix_rejected", "rule_moved_between_sheets", "default_namespace_changed", "restart", "duplicate_uri_rules", "selector_in_media"]
+PROBES = ["rebind_prefix", "delete_used_namespace_rejected", "undeclared_prefix_rejected", "rule_moved_between_sheets", "default_namespace_changed", "restart", "duplicate_uri_rules", "selector_in_media", "empty_bodied_rule", "rule_detached_and_kept", "detached_rule_attached_again"]
 
 ANY = -1
 PREFIXES = ["p", "q", "r", ""]
@@ -93,6 +93,8 @@ class World:
         self.sheets = [cu.parseString(t) for t in cfg["sheets"]]
         cu.log.raiseExceptions = cfg["raise"]
         self.soft = []
+        self.created_map = {}  # id(rule) -> namespace mapping under which its selectors were written
+        self.detached = []  # (rule object, meant, namespace mapping of its sheet when it was taken out)
         self.tracked = []  # (rule object, [[(kind, uri|ANY|''|'DEFAULT', local, default_at_creation)] per selector])
         self.check("init")
 
@@ -143,6 +145,49 @@ class World:
                     if uri != muri:
                         raise Viol("V4_meaning_kept", f"{where}:uri", f"after {where}: {sel.selectorText!r} now means {got}, meant {m}")
 
+        # V4 for rules taken out of their sheet: what the old sheet does afterwards does not reach them
+        for rule, meant, mapping in self.detached:
+            if rule.parentStyleSheet is not None:
+                continue
+            self.stats["oracle"] += 1
+            k, text = lib.call(lambda: rule.selectorText)
+            if k != "ok":
+                raise Viol("V4_detached_rule", f"{where}:selectorText-raises:{lib.ename(text)}", f"after {where}: a rule taken out of its sheet (namespaces then {mapping}) cannot be serialised: {text!r}")
+            sels = list(rule.selectorList)
+            if len(sels) != len(meant):
+                continue
+            for sel, m in zip(sels, meant):
+                got = pairs_of(sel)
+                if len(got) != len(m):
+                    raise Viol("V4_detached_rule", f"{where}:item-count", f"after {where}: detached {text!r} has items {got}, meant {m}")
+                for (kind, uri, local), (mk, muri, mlocal, _) in zip(got, m):
+                    if muri != "DEFAULT" and (uri != muri or local != mlocal):
+                        raise Viol("V4_detached_rule", f"{where}:uri", f"after {where}: detached {text!r} now means {got}, meant {m}")
+            # its serialisation re-resolves to the same pairs: under the declarations in force when the selectors were
+            # written (the detached rule's own copy) or under those of its sheet when it was taken out (both are
+            # legitimate sources of the prefixes it is written with)
+            maps = [mp for mp in (self.created_map.get(id(rule)), mapping) if mp is not None]
+            verdicts = []
+            for mp in maps:
+                k2, sl = lib.call(self.cu.css.SelectorList, (text, mp))
+                if k2 != "ok":
+                    verdicts.append(f"does not parse under {mp}: {sl!r}")
+                    continue
+                again = list(sl)
+                bad = None
+                if len(again) == len(sels):
+                    for sel2, m in zip(again, meant):
+                        got2 = pairs_of(sel2)
+                        if len(got2) != len(m):
+                            bad = f"items {got2}"
+                            break
+                        for (kind, uri, local), (mk, muri, mlocal, _) in zip(got2, m):
+                            if muri != "DEFAULT" and uri != muri:
+                                bad = f"means {got2} under {mp}"
+                verdicts.append(bad)
+            if maps and all(v is not None for v in verdicts):
+                raise Viol("V4_detached_rule", f"{where}:serialisation-does-not-re-resolve", f"after {where}: detached rule serialises its selectors as {text!r}; meant {meant}; {verdicts}")
+
     def restart(self, si):
         cu = self.cu
         s = self.sheets[si % len(self.sheets)]
@@ -166,7 +211,8 @@ class World:
             return "ambiguous"
         if m1 != m2:
             raise Viol("V5_restart", "restart:mapping", f"mapping {m1} but {b!r} reparses to {m2}")
-        r1, r2 = style_rules(s), style_rules(s2)
+        # (a rule without declarations is not serialised: not a loss)
+        r1, r2 = [r for r in style_rules(s) if lib.call(lambda: r.cssText)[1]], style_rules(s2)
         if len(r1) != len(r2):
             raise Viol("V5_restart", "restart:rules-lost", f"{len(r1)} style rules, {b!r} reparses to {len(r2)}")
         default_now = m1.get("")
@@ -244,18 +290,22 @@ class World:
                 expect_reject = "undeclared_prefix"
             if k == "add_style":
                 n0 = len(style_rules(s))
+                body = "{ }" if op.get("empty") else "{ top: 0 }"
+                if op.get("empty"):
+                    self.stats["probe:empty_bodied_rule"] += 1
                 if op.get("in_media"):
                     medias = [r for r in s.cssRules if r.typeString == "MEDIA_RULE"]
                     if not medias:
-                        kk, v = lib.call(s.add, f"@media print {{ {text} {{ top: 0 }} }}")
+                        kk, v = lib.call(s.add, f"@media print {{ {text} {body} }}")
                     else:
-                        kk, v = lib.call(medias[0].add, f"{text} {{ top: 0 }}")
+                        kk, v = lib.call(medias[0].add, f"{text} {body}")
                     self.stats["probe:selector_in_media"] += 1
                 else:
-                    kk, v = lib.call(s.add, f"{text} {{ top: 0 }}")
+                    kk, v = lib.call(s.add, f"{text} {body}")
                 rules = style_rules(s)
                 if kk == "ok" and len(rules) == n0 + 1 and not undeclared and not op.get("in_media"):
                     self.tracked.append((rules[-1], meant))
+                    self.created_map[id(rules[-1])] = dict(before_map)
             else:
                 rules = style_rules(s)
                 if not rules:
@@ -266,6 +316,28 @@ class World:
                 self.tracked = [(r, m) for r, m in self.tracked if r is not rule]
                 if kk == "ok" and not undeclared and rule.selectorText != old:
                     self.tracked.append((rule, meant))
+                    self.created_map[id(rule)] = dict(before_map)
+        elif k == "detach":
+            rules = [r for r in s.cssRules if r.typeString == "STYLE_RULE"]
+            if not rules:
+                return "norule"
+            rule = rules[op["i"] % len(rules)]
+            meant = next((m for r, m in self.tracked if r is rule), None)
+            kk, v = lib.call(s.deleteRule, rule)
+            if kk == "ok" and meant is not None and rule.parentStyleSheet is None and ref_mapping([(p, u) for p, u in before[1]]) is not None:
+                self.detached.append((rule, meant, dict(before_map)))
+                self.stats["probe:rule_detached_and_kept"] += 1
+            before = self.snapshot(s)  # (the removal itself is judged by C09; here: what follows)
+        elif k == "reattach":
+            cands = [d for d in self.detached if d[0].parentStyleSheet is None]
+            if not cands:
+                return "none"
+            rule, meant, mapping = cands[op["i"] % len(cands)]
+            kk, v = lib.call(s.add, rule)
+            self.detached = [d for d in self.detached if d[0] is not rule]
+            self.tracked = [(r, m) for r, m in self.tracked if r is not rule]
+            if kk == "ok" and rule.parentStyleSheet is s:
+                self.stats["probe:detached_rule_attached_again"] += 1
         elif k == "move":
             if len(self.sheets) < 2:
                 return "onesheet"
@@ -404,7 +476,7 @@ def gen_op(r, w, i):
     cfg = w.cfg
     if i >= cfg["n_ops"]:
         return None
-    k = r.choice(["ns_set", "ns_set", "ns_del", "add_ns_rule", "del_ns_rule", "rule_prefix", "add_style", "add_style", "add_style", "set_selector", "move", "sheet_text", "restart"])
+    k = r.choice(["ns_set", "ns_set", "ns_del", "ns_del", "add_ns_rule", "del_ns_rule", "rule_prefix", "add_style", "add_style", "add_style", "set_selector", "set_selector", "move", "sheet_text", "restart", "detach", "reattach"])
     s = r.randrange(0, 2)
     if k == "ns_set":
         return {"op": k, "s": s, "prefix": r.choice(PREFIXES), "uri": r.choice(URIS)}
@@ -416,8 +488,10 @@ def gen_op(r, w, i):
         return {"op": k, "s": s, "i": r.randrange(0, 4)}
     if k == "rule_prefix":
         return {"op": k, "s": s, "i": r.randrange(0, 4), "prefix": r.choice(PREFIXES + ["k"])}
+    if k in ("detach", "reattach"):
+        return {"op": k, "s": s, "i": r.randrange(0, 6)}
     if k == "add_style":
-        return {"op": k, "s": s, "sels": [gen_sel(r) for _ in range(r.choice([1, 1, 2]))], "in_media": r.random() < 0.25}
+        return {"op": k, "s": s, "sels": [gen_sel(r) for _ in range(r.choice([1, 1, 2]))], "in_media": r.random() < 0.25, "empty": r.random() < 0.25}
     if k == "set_selector":
         return {"op": k, "s": s, "i": r.randrange(0, 6), "sels": [gen_sel(r) for _ in range(r.choice([1, 1, 2]))]}
     if k == "move":
